@@ -267,6 +267,7 @@ func types() []typeDef {
 				func(g, a int) { c.SetValue(a % 4) },
 				func(g, a int) { c.SwapValue(func(v int) int { return v + 1 }) },
 				func(g, a int) { _ = c.GetValue() },
+				func(g, a int) { _ = c.SwapValue(nil) }, // documented: returns the current value
 				func(g, a int) { p.block(func(ctx context.Context) { _, _ = c.WaitValue(ctx, nil) }) },
 				func(g, a int) { p.block(func(ctx context.Context) { _, _ = c.WaitValueChange(ctx, a%4, nil) }) },
 				func(g, a int) { p.block(func(ctx context.Context) { _ = c.WaitValueEmpty(ctx, nil) }) },
@@ -294,7 +295,11 @@ func types() []typeDef {
 			}, nil
 		}},
 		{"ccall", func(p *prog) ([]func(g, a int), func()) {
+			// one argument slice (with nil entries) that several goroutines pass at the same time:
+			// the callers only read it
+			shared := []ccall.CallConcurrentlyFunc{nil, quick, nil, quick, func(ctx context.Context) error { runtime.Gosched(); return nil }}
 			return []func(g, a int){
+				func(g, a int) { _ = ccall.CallConcurrently(p.root, shared...) },
 				func(g, a int) {
 					fns := []ccall.CallConcurrentlyFunc{}
 					for i := 0; i <= a%5; i++ {
